@@ -100,7 +100,7 @@ def gen_history(r, tier, forced=None):
     if forced == "n6-twohot":
         n, K = 6, 2
         steps = [(0, 1, 1, [1.0, 1.0, 0.0, 0.0, 0.0, 0.0], "twohot"), (0, 0, 1, [1.0] * 6, "ones")]
-    if forced == "circ-resample":
+    if forced in ("circ-resample", "circ-resample-prior"):
         n = r.randint(4, 30)
         circ = r.randint(1, 2)
         K = r.randint(1, 5)
@@ -120,13 +120,23 @@ def gen_history(r, tier, forced=None):
         init = "random-normalised"
     x0 = [1000.0 * (i + 1) for i in range(n)]
     seed = r.randrange(1, 2 ** 32)
-    meta = {"n": n, "lin": lin, "circ": circ, "K": len(steps), "mode": forced or mode, "init": init, "seed": seed}
-    return (seed, n, lin, circ, w0, x0, steps), meta
+    prior, ratio = 0, 0.0
+    if (forced is None and r.random() < 0.25) or forced == "circ-resample-prior":
+        prior = 1
+        ratio = r.choice([0.0, 0.1, 0.25, 0.3, 0.5, 0.75, 0.9, r.uniform(0, 0.95)])
+    meta = {"n": n, "lin": lin, "circ": circ, "K": len(steps), "mode": forced or mode, "init": init, "seed": seed, "prior": prior}
+    return (seed, n, lin, circ, w0, x0, steps, prior, ratio), meta
+
+
+def draw_count(case):
+    """the resampler draws from uniform(0, 1/m): m = N, or N - floor(N * ratio) for the prior-mixing resampler"""
+    n, prior, ratio = case[1], case[7], case[8]
+    return n - int(math.floor(n * ratio)) if prior else n
 
 
 def make_lines(case, us):
-    seed, n, lin, circ, w0, x0, steps = case
-    body = "%d %d %d %d %d %s %s %s" % (n, lin, circ, len(steps), len(us), " ".join(us),
+    seed, n, lin, circ, w0, x0, steps, prior, ratio = case
+    body = "%d %d %d %d %d %d %s %s %s %s" % (n, lin, circ, len(steps), len(us), prior, hexd(ratio), " ".join(us),
                                       " ".join(hexd(x) for x in w0), " ".join(hexd(x) for x in x0))
     for cmd, fr, va, lik, _ in steps:
         body += " %d %d %d %s" % (cmd, fr, va, " ".join(hexd(x) for x in lik))
@@ -136,15 +146,16 @@ def make_lines(case, us):
 def parse_line(line):
     """corpus line (a harness line) -> case tuple"""
     t = line.split()
-    seed, n, lin, circ, K, D = [int(x) for x in t[1:7]]
-    p = 7 + D
+    seed, n, lin, circ, K, D, prior = [int(x) for x in t[1:8]]
+    ratio = unhex(t[8])
+    p = 9 + D
     w0 = [unhex(x) for x in t[p:p + n]]; p += n
     x0 = [unhex(x) for x in t[p:p + n]]; p += n
     steps = []
     for _ in range(K):
         cmd, fr, va = int(t[p]), int(t[p + 1]), int(t[p + 2]); p += 3
         steps.append((cmd, fr, va, [unhex(x) for x in t[p:p + n]], "corpus")); p += n
-    return (seed, n, lin, circ, w0, x0, steps), {"n": n, "lin": lin, "circ": circ, "K": K, "mode": "corpus", "init": "corpus", "seed": seed}
+    return (seed, n, lin, circ, w0, x0, steps, prior, ratio), {"n": n, "lin": lin, "circ": circ, "K": K, "mode": "corpus", "init": "corpus", "seed": seed, "prior": prior}
 
 
 # --------------------------------------------------------------------------- parsing
@@ -188,7 +199,8 @@ def bits_equal(a, b):
 
 def check_history(case, meta, h, d, stats, hist):
     probs = []
-    seed, n, lin, circ, w0, x0, steps = case
+    seed, n, lin, circ, w0, x0, steps, prior, ratio = case
+    kprior = int(math.floor(n * ratio)) if prior else 0
     K = len(steps)
     if not h.startswith("ok"):
         return [("prop", "impl-crash", "the SIS filter failed on a valid history (N=%d, lin=%d, circ=%d, %d steps): %s" % (n, lin, circ, K, h[:160]))]
@@ -267,7 +279,12 @@ def check_history(case, meta, h, d, stats, hist):
                 probs.append(("prop", "not-uniform-after-resampling", "%s: weights after resampling are not all -log N" % where))
                 break
             par = b["parents"]
-            if len(par) != n or any(not (0 <= q < n) for q in par) or len(b["cs"]) != n or any(hexd(b["x"][j]) != hexd(b["cs"][par[j]]) for j in range(n)) or not b["rows_ok"]:   # rows_ok: every full column equals the corrected column at its parent (harness)
+            if prior:
+                # prior-mixing resampler: floor(ratio*N) leading parents -1 (fresh draws), the others copies of corrected particles
+                if len(par) != n or [q for q in par if q == -1] != par[:kprior] or len([q for q in par if q == -1]) != kprior or not b["rows_ok"]:
+                    probs.append(("prop", "resampled-not-copies", "%s: prior-mixing resampling: %d parents -1 (expected %d leading), columns %s" % (where, len([q for q in par if q == -1]), kprior, "ok" if b["rows_ok"] else "not fresh draws / copies")))
+                    break
+            elif len(par) != n or any(not (0 <= q < n) for q in par) or len(b["cs"]) != n or any(hexd(b["x"][j]) != hexd(b["cs"][par[j]]) for j in range(n)) or not b["rows_ok"]:   # rows_ok: every full column equals the corrected column at its parent (harness)
                 probs.append(("prop", "resampled-not-copies", "%s: resampled particles are not copies of the corrected particles at the reported parents" % where))
                 break
             pre_x = b["cs"]
@@ -336,8 +353,12 @@ def check_history(case, meta, h, d, stats, hist):
                 probs.append(("corr", "weights-model", "%s: weights differ from the model" % where))
                 live = False
             elif not bits_equal(mb["x"], b["x"]):
-                probs.append(("corr", "states-model", "%s: particles differ from the model" % where))
-                live = False
+                # with the prior-mixing resampler equal weights may be ordered differently by std::sort (unstable)
+                if not prior:
+                    probs.append(("corr", "states-model", "%s: particles differ from the model" % where))
+                    live = False
+                else:
+                    stats["prior_steps_particles_differ_from_model"] = stats.get("prior_steps_particles_differ_from_model", 0) + 1
             else:
                 stats["steps_identical_to_model"] = stats.get("steps_identical_to_model", 0) + 1
         prev_w, prev_x = b["w"], b["x"]
@@ -361,11 +382,11 @@ def run(ctx):
         for ln in corpus.read_text().split("\n"):
             if ln.strip() and not ln.startswith("#"):
                 cases.append(parse_line(ln.strip()))
-    for forced in ["n3-onehot"] * 4 + ["n3-init-onehot"] * 2 + ["n6-twohot"] * 2 + ["init-peaked"] * 4 + ["circ-resample"] * ctx.n(12, 100):
+    for forced in ["n3-onehot"] * 4 + ["n3-init-onehot"] * 2 + ["n6-twohot"] * 2 + ["init-peaked"] * 4 + ["circ-resample"] * ctx.n(12, 100) + ["circ-resample-prior"] * ctx.n(8, 60):
         cases.append(gen_history(r, ctx.tier, forced))
     cases += [gen_history(r, ctx.tier) for _ in range(n_hist)]
     # the draws of the resampler's generator (twin generator, same seed, same distribution)
-    uouts, _ = vlib.run_harness(binary, ["u1 %d %d %d" % (c[0], c[1], len(c[6])) for c, _ in cases])
+    uouts, _ = vlib.run_harness(binary, ["u1 %d %d %d" % (c[0], draw_count(c), len(c[6])) for c, _ in cases])
     hlines, dlines = [], []
     for (case, meta), uo in zip(cases, uouts):
         us = uo.split()[1:] if uo.startswith("ok") else []
@@ -379,6 +400,8 @@ def run(ctx):
     steps_total = 0
     for (case, meta), hl, h, d in zip(cases, hlines, hout, dout):
         modes[meta["mode"]] = modes.get(meta["mode"], 0) + 1
+        if meta.get("prior"):
+            stats["histories_with_prior_mixing_resampler"] = stats.get("histories_with_prior_mixing_resampler", 0) + 1
         if meta["circ"] > 0:
             stats["histories_with_circular_components"] = stats.get("histories_with_circular_components", 0) + 1
         distinct.add(hl)
